@@ -38,8 +38,9 @@ def gen_call(rnd, integer):
         else:
             wt = gen.weight(rnd, rnd.choice(["int", "rat"]))
         bl.append(canon.spec_ballot(r=[[c] for c in r], w=wt, id="x%d" % len(bl) if rnd.random() < 0.15 else None))
-    if rnd.random() < 0.3 and bl:
-        bl.append(dict(rnd.choice(bl)))  # duplicate
+    if rnd.random() < 0.5 and bl:
+        for _ in range(rnd.randint(1, 3)):
+            bl.append(dict(rnd.choice(bl)))  # duplicates (un-condensed input)
     tally = sum((canon.pf(b["w"]) for b in bl if b["r"][0] == [w]), F(0))
     if tally < 1:
         return None
@@ -196,7 +197,7 @@ def local_balance(ctx, c2, cfg, log, T):
     candidate under the fractional rule), ballots without a surviving choice dropping out."""
     israndom = cfg.get("transfer") == "random"
     full = cfg["rule"] == "SequentialRCV"
-    for (obj, pin, prev, pout) in log:
+    for (obj, pin, prev, pout, _new) in log:
         if not hasattr(obj, "threshold"):
             continue
         tally = dict(prev.scores)
@@ -248,6 +249,35 @@ def local_balance(ctx, c2, cfg, log, T):
                       "elected": sorted(map(str, el)), "eliminated": sorted(map(str, elim)), "T": str(T)})
             return False
     return True
+
+
+def sibling_call(rnd, case):
+    """same winner, tally, threshold and the same set of distinct (ranking, weight) ballots, other multiplicities:
+    extra copies of ballots not led by the winner, multiplicities permuted among winner-led ballots of equal weight"""
+    w = case["winner"]
+    bl = [dict(b) for b in case["ballots"]]
+    foreign = [b for b in bl if b["r"][0] != [w]]
+    if foreign:
+        for _ in range(rnd.randint(1, 2)):
+            bl.insert(rnd.randrange(len(bl) + 1), dict(rnd.choice(foreign)))
+    led = [b for b in bl if b["r"][0] == [w]]
+    byw = {}
+    for b in led:
+        byw.setdefault(b["w"], []).append(b)
+    for wt, group in byw.items():
+        distinct = []
+        for b in group:
+            if b["r"] not in distinct:
+                distinct.append(b["r"])
+        if len(distinct) >= 2:
+            # move one copy from one ranking to another ranking of the same weight: tally unchanged
+            src = rnd.choice(group)
+            dst = rnd.choice([r for r in distinct if r != src["r"]] or distinct)
+            if sum(1 for b in group if b["r"] == src["r"]) >= 2:
+                src["r"] = dst
+    c2 = dict(case)
+    c2["ballots"] = bl
+    return c2
 
 
 def check_run(ctx, case, max_runs):
@@ -366,6 +396,11 @@ def run(ctx):
         c = gen_call(ctx.rnd, integer=(i % 2 == 0))
         if c is not None:
             ctx.guard("check_call", check_call, ctx, c)
+            if i % 3 == 0:
+                # state leaks between calls: a sibling call (same winner/tally/threshold/distinct ballots, other
+                # multiplicities) right after the first one
+                ctx.count("sibling_calls")
+                ctx.guard("check_call_sibling", check_call, ctx, sibling_call(ctx.rnd, c))
     nr = ctx.n(3500, 80000)
     maxn = 6 if ctx.quick else 8
     for i in range(nr):
